@@ -209,7 +209,7 @@ pub struct Run {
     out_dir: PathBuf,
 }
 
-fn machinery_fault(msg: &str) -> ! {
+pub fn machinery_fault(msg: &str) -> ! {
     eprintln!("ENGINE-FAULT: {}", msg);
     println!("ENGINE-FAULT: {}", msg);
     std::process::exit(2);
@@ -430,6 +430,15 @@ impl Run {
         let replay_dir = self.out_dir.join("replays");
         let _ = std::fs::create_dir_all(&evid_dir);
 
+        // replay files of an earlier run of this property do not describe this run
+        if let Ok(rd) = std::fs::read_dir(&replay_dir) {
+            let prefix = format!("{}-", self.prop);
+            for e in rd.flatten() {
+                if e.file_name().to_string_lossy().starts_with(&prefix) {
+                    let _ = std::fs::remove_file(e.path());
+                }
+            }
+        }
         let mut replay_paths = vec![];
         if total.viol_count > 0 {
             let _ = std::fs::create_dir_all(&replay_dir);
